@@ -35,7 +35,7 @@ theorem ocmdU_other (u : Nat) (t : List Char) (v : Nat) (j : OU) (h : v ≠ u) :
   split <;> simp_all
 
 theorem ocmdU_self (u : Nat) (t : List Char) (j : OU) :
-    ocmdU u t u j = { j with pending := (consume j.charMode j.pending t).getD j.pending, charMode := false,
+    ocmdU u t u j = { j with pending := (consume j.charMode j.pending t).getD (onMiss j.pending t), charMode := false,
                              waiting := false, passed := [] } := by
   unfold ocmdU; simp
 
